@@ -402,12 +402,12 @@ def check_ws(ctx: Ctx, version: str, seqs: List[List[Tuple[str, dict]]], offer: 
 WIRE_FAMILY = True
 # `http.response.push` whose header list passes hypercorn's own validation but is refused by h2's outbound validation while
 # h2 is already encoding the block (e.g. `te: gzip`): FINDING reported in round 6 (the refusal is swallowed, nothing is written,
-# but the HPACK encoder has run: the next header block of the connection is undecodable at the client).  Off until judged.
-PUSH_H2_REFUSED_HEADERS = False
+# but the HPACK encoder has run: the next header block of the connection is undecodable at the client).  Judged: known finding (known_findings.json), the sessions are on and carry a marked signature.
+PUSH_H2_REFUSED_HEADERS = True
 # `http.response.early_hint` sent by the application of a PUSHED stream before its response (the scope of a pushed request offers the
 # extension): h2 refuses informational headers on a reserved stream (swallowed) and closes the stream, the pushed response that
-# follows is dropped without a word, the promise is never kept nor reset.  FINDING reported in round 6.  Off until judged.
-HINT_ON_PUSHED_STREAM = False
+# follows is dropped without a word, the promise is never kept nor reset.  FINDING reported in round 6.  Judged: known finding (known_findings.json), the sessions are on and carry a marked signature.
+HINT_ON_PUSHED_STREAM = True
 H2_REFUSED_PUSHES = [("push:te_gzip", {"type": "http.response.push", "path": "/p", "headers": [(b"te", b"gzip")]}),
                      ("push:new_then_te_gzip", {"type": "http.response.push", "path": "/p", "headers": [(b"x-new", b"v"), (b"te", b"gzip")]})]
 SERVER_HEADERS = ("date", "server", "alt-svc")
@@ -677,6 +677,12 @@ def check_wire(ctx: Ctx, cases: List[dict]) -> None:
         ctx.evaluations += 1
         ctx.count("wire.2.context", f"{case['pre']}{'/pushed stream' if case.get('on_pushed') else ''}/client push {case.get('enable_push')}")
         sig0 = {"family": "wire", "version": "2"}
+        # sessions of the two round-6 findings (known_findings.json: F115, F116) are marked, so that what they show is attributed to
+        # them and to nothing else
+        if any(f in dict(H2_REFUSED_PUSHES) for f in case["focus"]):
+            sig0["h2_refused_push"] = True
+        if case.get("on_pushed") and case["pre"] == "REQUEST" and "hint:ok" in case["focus"]:
+            sig0["hint_on_pushed_stream"] = True
         mo = model[i].get("ok") if model is not None else None
         if len(res["steps"]) != len(seq):
             ctx.violation("wire_session_incomplete", case, {"steps": len(res["steps"]), "messages": len(seq)}, sig0)
